@@ -8,6 +8,8 @@ package xsurveyor
 //@   immutable: p s closeQ sendQ
 //@
 //@ struct socket
+//@   close_token closeQ when closed
+//@   close_token sizeQ
 //@   lock Mutex level 20
 //@   guarded_by Mutex: closed pipes recvQLen sendQLen recvExpire recvQ sizeQ
 //@   immutable: closeQ
@@ -60,3 +62,6 @@ package xsurveyor
 //@
 //@ func (*socket).AddPipe
 //@   before call:SetPrivate#1 assert cap(p.sendQ) == s.sendQLen
+//@
+//@ func (*socket).RemovePipe
+//@   may_close p.closeQ caller
